@@ -49,13 +49,12 @@ def WellFormed (S : Scheme) (buf : Bytes) : Prop :=
       S.verify pk (encList (encUint seq ++ Record.pairsBytes c)) sig = true
 
 /-- Laws a key type has to satisfy for the history theorems (hypotheses, never axioms).
-    They hold for every built-in key type when a public key is represented by its canonical
-    encoding; `Props/` proves them for the toy scheme. -/
+    `Props/C11.lean` proves them for the four built-in key types (`k256S_lawful`, `libsecpS_lawful`,
+    `edS_lawful`, `combS_lawful`), `Proofs/ToyScheme.lean` for the toy scheme of the examples.
+    (The length bound on a key's encoding is not a law: it is the per-key predicate `KeyOK`.) -/
 structure Scheme.Lawful (S : Scheme) : Prop where
   /-- a public key is determined by its entry name and its encoding -/
   pub_inj : ∀ a b : S.PK, S.enrKey a = S.enrKey b → S.encodePub a = S.encodePub b → a = b
-  /-- encodings have a length that fits the RLP length field -/
-  pub_len : ∀ pk : S.PK, (S.encodePub pk).length < 2 ^ 64 ∧ (S.enrKey pk).length < 2 ^ 64
   /-- the key entry is not one of the keys typed by the specification -/
   key_not_reserved : ∀ pk : S.PK, S.enrKey pk ≠ kId ∧ isPortKey (S.enrKey pk) = false ∧
     S.enrKey pk ≠ kIp ∧ S.enrKey pk ≠ kIp6
@@ -63,6 +62,12 @@ structure Scheme.Lawful (S : Scheme) : Prop where
   pub_local : ∀ c1 c2 : Content,
     (∀ pk : S.PK, Map.lookup c1 (S.enrKey pk) = Map.lookup c2 (S.enrKey pk)) →
     S.enrToPublic c1 = S.enrToPublic c2
+
+/-- The encoding and the entry name of a particular public key have lengths that fit the RLP
+    length field.  A fact about the key in play (every real key: 33, 32 and 9 or 7 bytes), not a
+    law of the key type: the model's `PK` of the built-in key types is all of `Bytes`. -/
+def KeyOK (S : Scheme) (pk : S.PK) : Prop :=
+  (S.encodePub pk).length < 2 ^ 64 ∧ (S.enrKey pk).length < 2 ^ 64
 
 /-- The signer's answer verifies under the signer's public key over the payload it was asked to
     sign (`SigOK`): the assumption every history theorem makes about the signing oracle. -/
@@ -92,6 +97,7 @@ def Op.WF {S : Scheme} : Op S → Prop
   | .setUdpSocket ip port => (ip.length = 4 ∨ ip.length = 16) ∧ port < 65536
   | .setTcpSocket ip port => (ip.length = 4 ∨ ip.length = 16) ∧ port < 65536
   | .removeInsert _ ins => ∀ k v, (k, v) ∈ ins → k.length < 2 ^ 64 ∧ v.length < 2 ^ 64
+  | .setPublicKey pk' => (S.encodePub pk').length < 2 ^ 64 ∧ (S.enrKey pk').length < 2 ^ 64
   | _ => True
 
 /-- an update other than `set_seq` -/
@@ -110,9 +116,10 @@ def run (S : Scheme) (r : Record) : List (Call S) → Record
   | [] => r
   | c :: cs => run S (step S r c.op c.pk c.oracle).2 cs
 
-/-- the call's arguments are in range and the signer's answer verifies over what it was asked to sign -/
+/-- the call's arguments are in range, the signer's key has a length that fits, and the signer's
+    answer verifies over what it was asked to sign -/
 def CallOK (S : Scheme) (r : Record) (c : Call S) : Prop :=
-  c.op.WF ∧ ∀ m, signRequest S r c.op c.pk = some m → SigOK S c.pk m c.oracle
+  c.op.WF ∧ KeyOK S c.pk ∧ ∀ m, signRequest S r c.op c.pk = some m → SigOK S c.pk m c.oracle
 
 /-- every call of the history is `CallOK` in the state it is applied to -/
 def RunOK (S : Scheme) (r : Record) : List (Call S) → Prop
